@@ -86,6 +86,11 @@ def request(iface, app, root, path, host=None, log=None):
     req = SV.AReq(path=path, root=root, headers=headers, server=("a.com", 80) if host in (None, "") else ("testserver", 80))
     if iface == "wsgi":
         env = SV.to_environ(req)
+        # PEP 3333: SCRIPT_NAME and PATH_INFO may be left out when they are empty
+        if root == "" and len(path) % 2 == 0:
+            env.pop("SCRIPT_NAME", None)
+        if path == "" and root != "/r":
+            env.pop("PATH_INFO", None)
         before = {k: v for k, v in env.items()}
         res = SV.run_wsgi(app, env)
         untouched = all(env.get(k) == v for k, v in before.items()) and set(env) == set(before)
@@ -149,14 +154,15 @@ def thread_family(r, tier):
     app = build("wsgi", tree, log)
     reqs = {"a-b": SV.AReq(path="/a/b/x", root="/r"), "a": SV.AReq(path="/a/q"), "e": SV.AReq(path="/é/y"), "other": SV.AReq(path="/zzz"), "none": SV.AReq(path="nomatch")}
     pairs = [(x, y) for x in reqs for y in reqs if x < y]
-    SV.wsgi_thread_pairs(r, "Subpaths", app, reqs, pairs, files, bound=1 if tier == "quick" else 2)
+    SV.wsgi_thread_pairs(r, "Subpaths", app, reqs, pairs, files, bound=1 if tier == "quick" else 2, factory=lambda: build("wsgi", tree, log))
     from baize import wsgi as W
     happ = W.Hosts((r"a\.com", leaf("wsgi", ["h0"], log)), (r".*\.org", leaf("wsgi", ["h1"], log)))
     hreqs = {"a": SV.AReq(headers=[("Host", "a.com")]), "org": SV.AReq(headers=[("Host", "x.org")]), "no": SV.AReq(headers=[("Host", "b.net")])}
-    SV.wsgi_thread_pairs(r, "Hosts", happ, hreqs, [("a", "org"), ("a", "no"), ("no", "org")], files, bound=1 if tier == "quick" else 2)
+    SV.wsgi_thread_pairs(r, "Hosts", happ, hreqs, [("a", "org"), ("a", "no"), ("no", "org")], files, bound=1 if tier == "quick" else 2,
+                         factory=lambda: W.Hosts((r"a\.com", leaf("wsgi", ["h0"], log)), (r".*\.org", leaf("wsgi", ["h1"], log))))
     alog = []
     aapp = build("asgi", tree, alog)
-    SV.asgi_task_pairs(r, "Subpaths", aapp, reqs, pairs, bound=2)
+    SV.asgi_task_pairs(r, "Subpaths", aapp, reqs, pairs, bound=2, factory=lambda: build("asgi", tree, alog))
     r.count("states", 1)
     r.sample({"threads": "two requests on one Subpaths/Hosts object, line-level schedules (WSGI threads) / send-receive schedules (ASGI tasks)"})
 
